@@ -72,6 +72,9 @@ def run_impl(case, outcome):
         for el in els:
             el._definition.attach_event_handler(events.Write, observer)
             el._definition.attach_event_handler(events.Change, observer)
+    # switches hidden at element level (`element.enabled = False`): not published, but part of the property and of its rule
+    for i in case.get("hidden") or []:
+        els[i].enabled = False
     # vetoing Write handlers (a driver refusing a client's request): a refused write must leave the whole property as it was
     if case.get("veto"):
         from indi.device import events as _ev
@@ -110,6 +113,8 @@ def run_impl(case, outcome):
         snaps = []
         for m in published:
             if isinstance(m, message.SetSwitchVector):
+                if case.get("hidden"):
+                    continue            # a published update lists the visible switches only: judged through the states below
                 snaps.append([c.value == "On" for c in m.children])
             else:
                 snaps.append("unexpected:" + type(m).__name__)
@@ -149,7 +154,7 @@ def run_impl(case, outcome):
         outcome.nontrivial.add((rule, bits(before), enc_op(op)))
         before = after
     line = "%s %s %d %s" % (rule, bits(init), len(case["ops"]), " ".join(enc_op(o) for o in case["ops"]))
-    if not case.get("veto"):
+    if not case.get("veto") and not case.get("hidden"):
         qs.insert(0, Query("sw run " + line, " | ".join(steps), "corr"))
     return qs
 
@@ -220,3 +225,10 @@ def gen_cases(rng, tier):
                     ops.append(["W", [[0, True], [n - 1, True]]])
                     for op in ops:
                         yield {"op": "sw", "rule": rule, "init": list(init), "ops": [op], "veto": veto}
+    # (4) hidden switches (element-level enabled = False) take part in the rule like any other
+    for rule in RULES:
+        for n in (2, 3):
+            for init in itertools.product((False, True), repeat=n):
+                for hidden in ([0], [n - 1]):
+                    for op in ([["A", i, True] for i in range(n)] + [["W", [[i, True]]] for i in range(n)] + [["S", [i]] for i in range(n)]):
+                        yield {"op": "sw", "rule": rule, "init": list(init), "ops": [op, ["A", (op[1] if op[0] == "A" else 0), True]][:1], "hidden": hidden}
